@@ -74,3 +74,20 @@ Theorem C19_destination_from_leaseset_vs_read_destination : forall d dest rem, w
     kc_signing_type (k_kc dest') = kc_signing_type (k_kc dest) /\ kc_crypto_type (k_kc dest') = kc_crypto_type (k_kc dest).
 Proof. exact dfl_agrees_with_read_destination. Qed.
 Print Assumptions C19_destination_from_leaseset_vs_read_destination.
+
+(* one instant below 2^63 ms, every way of making a Date of it — NewDateFromMillis, DateFromTime of the
+   same instant, NewDateFromUnix when it is a whole second, ReadDate / NewDate of its eight bytes — yields
+   the same eight bytes, and Int() of them is the instant *)
+Theorem C19_date_entry_points_agree : forall ms rest, 0 <= ms < two63 ->
+  let d := be_encode 8 (Z.to_N ms) in
+  new_date_from_millis ms = Ok d /\
+  date_from_time (ms / 1000) (ms mod 1000 * 1000000) = d /\
+  (ms mod 1000 = 0 -> new_date_from_unix (ms / 1000) = Ok d) /\
+  read_date (d ++ rest) = Ok (d, rest) /\
+  date_int d = ms.
+Proof. exact date_entry_points_agree. Qed.
+Print Assumptions C19_date_entry_points_agree.
+Example C19_date_nonvacuous :
+  new_date_from_millis 9223372036855000 = Ok [0; 32; 196; 155; 165; 227; 84; 216]%N /\
+  new_date_from_unix 9223372036855 = Ok [0; 32; 196; 155; 165; 227; 84; 216]%N.
+Proof. vm_compute. split; reflexivity. Qed.
